@@ -55,6 +55,7 @@ func init() {
 }
 
 func runC03(c *an.Ctx) {
+	c03sourceOnlyLexed(c)
 	p := c.P
 	info := p.Jet.TypesInfo
 
